@@ -168,7 +168,9 @@ func checkC03(c *checkCtx) {
 		}
 		return true
 	}
+	prevBeforeOpenAtEvent := 0
 	applyTrans := func(want []brTrans, from, to int, what string, at *Event, amb bool) bool {
+		defer func() { m.oldMetrics = nil; prevBeforeOpenAtEvent = prevBeforeOpen }()
 		got, _ := transBetween(from, to)
 		if amb {
 			c.cov("ambiguous.breaker_window")
@@ -185,6 +187,24 @@ func checkC03(c *checkCtx) {
 		if !sameTrans(got, want) {
 			fail("transition", "mismatch", fmt.Sprintf("%s: state changes reported %v but the documented machine makes %v", what, got, want), at)
 			return false
+		}
+		// the event's metrics are those of the state that was left
+		_, evs := transBetween(from, to)
+		for i, e := range evs {
+			if i >= len(m.oldMetrics) || (want[i].from == 1 && prevBeforeOpenAtEvent == 2) {
+				continue
+			}
+			okm := false
+			for _, w := range m.oldMetrics[i] {
+				if w.exec == e.Attempts && w.fail == e.Executions && w.succ == e.Retries {
+					okm = true
+				}
+			}
+			c.cov("c03.event_metrics_checked")
+			if !okm {
+				fail("event-metrics", "counts", fmt.Sprintf("%s: the %s->%s event carries metrics executions=%d failures=%d successes=%d but the state being left held one of %v", what, brStateNames[want[i].from], brStateNames[want[i].to], e.Attempts, e.Executions, e.Retries, m.oldMetrics[i]), at)
+				return false
+			}
 		}
 		return true
 	}
